@@ -67,7 +67,10 @@ func suitePage(t *testing.T, cfg cfgT) {
 		e := newEnv(t, driver.WithNamespaces(nsList(stNamespaces...)))
 		pool := newPool()
 		nobj := 1 + hr.intn(4)
-		for i := 0; i < 8; i++ {
+		if hr.chance(1, 3) {
+			nobj = 120 + hr.intn(60) // many distinct names: one page then needs more than one chunk of the name lookup
+		}
+		for i := 0; i < 8 || i < nobj; i++ {
 			pool.add(fmt.Sprintf("o%d", i))
 			pool.add(fmt.Sprintf("u%d", i))
 		}
